@@ -42,9 +42,9 @@ def _cwd(path):
 
 
 def cleanup():
+    # only this process's directory: removing the shared parent races with the other shards'
+    # `makedirs`
     shutil.rmtree(SCR, ignore_errors=True)
-    with contextlib.suppress(OSError):
-        os.rmdir(os.path.dirname(SCR))
 
 
 # ---------------------------------------------------------------------------
